@@ -35,10 +35,49 @@ class Obligation:
 
     RECENT = 34
 
+    @staticmethod
+    def symbols(e):
+        acc, seen, todo = set(), set(), [e]
+        while todo:
+            x = todo.pop()
+            if x.get_id() in seen:
+                continue
+            seen.add(x.get_id())
+            if z3.is_quantifier(x):
+                todo.append(x.body())
+            elif z3.is_app(x):
+                if x.decl().kind() == z3.Z3_OP_UNINTERPRETED:
+                    acc.add(x.decl().name())
+                todo.extend(x.children())
+        return acc
+
+    def relevant(self, depth=2, common=0.3):
+        """hypotheses sharing a (not ubiquitous) uninterpreted symbol with the goal, transitively to `depth`;
+        a subset of the hypotheses, hence a sound weakening"""
+        hs = [self.symbols(h) for h in self.hyps]
+        n = len(hs)
+        freq = {}
+        for s_ in hs:
+            for x in s_:
+                freq[x] = freq.get(x, 0) + 1
+        rare = lambda x: freq.get(x, 0) <= max(3, common * n)     # noqa: E731
+        cur = {x for x in self.symbols(self.goal) if rare(x)}
+        keep = set(range(getattr(self, "n_global", 0)))
+        for _ in range(depth):
+            new = set()
+            for i, s_ in enumerate(hs):
+                if i not in keep and any(x in cur for x in s_):
+                    keep.add(i)
+                    new |= {x for x in s_ if rare(x)}
+            cur |= new
+        return [self.hyps[i] for i in sorted(keep)]
+
     def select(self, variant):
         g, e = getattr(self, "n_global", 0), getattr(self, "entry_len", 0)
         h = self.hyps
         w = self.RECENT
+        if variant.startswith("relevant"):
+            return self.relevant(int(variant.split(":")[1]) if ":" in variant else 2)
         if variant.startswith("recent:"):
             w = int(variant.split(":")[1])
             variant = "recent"
